@@ -156,8 +156,9 @@ def naming_scenarios(with_clone=True):
         _NAMING["N-MIX-EDIF"] = Scenario(
             "N-MIX-EDIF", seeds.seed_mixed_policy,
             ["netlist.add_library", "netlist.remove_library", "library.add_definition", "library.remove_definition",
-             "definition.add_port", "definition.remove_port", "element.name=", "element.setitem", "element.delitem"],
-            limits={"positions": (None,), "names": (None, "a"), "keys": ("EDIF.identifier",), "elem_kinds": "LDPC"},
+             "definition.add_port", "definition.remove_port", "element.name=", "element.setitem", "element.delitem",
+             "element.set_ns"],
+            limits={"positions": (None,), "names": (None, "a"), "keys": ("EDIF.identifier",), "elem_kinds": "NLDPC"},
             depth={"quick": 2, "thorough": 3}, policy="EDIF",
             note="an EDIF-policy netlist extended with orphans built under the DEFAULT policy (compliant and not)")
     return list(_NAMING.values())
